@@ -301,6 +301,20 @@ def run_code(doc, root_pub, tmpdir):
             cert.add_element(HSMCertificateElement(dict(victim)))
             if norm(cert.validate_and_get_values(root)) != norm(first):
                 REVALIDATION.append("not-valid-again-after-the-element-was-put-back")
+        # certificate objects built from the document itself (a dict, as a program that
+        # holds one would), twice over from the very same dict: the verdicts are those of
+        # the file, and the dict is what it was
+        snap = copy.deepcopy(doc)
+        for n_ in (1, 2):
+            again = HSMCertificate(doc).validate_and_get_values(root)
+            if norm(again) != norm(first):
+                REVALIDATION.append("object-%d-built-from-the-same-document-judges-otherwise"
+                                    % n_)
+                break
+        if doc != snap:
+            REVALIDATION.append("building-a-certificate-object-altered-the-document-given")
+            doc.clear()
+            doc.update(snap)
     except Exception as e:
         REVALIDATION.append("revalidation-raised-%s" % type(e).__name__)
     return first
